@@ -8,6 +8,18 @@ for f in $(git diff --name-only --diff-filter=U); do
   case $f in
     evidence/*) git checkout --theirs $f;;
     MANIFEST.json|lean/lakefile.toml) ;;
+    known_findings.json) python3 - "$1" <<'PY'
+import json,subprocess,sys
+ours=json.loads(subprocess.check_output(['git','show','HEAD:known_findings.json']))
+theirs=json.loads(subprocess.check_output(['git','show',sys.argv[1]+':known_findings.json']))
+ids={f['id'] for f in ours['findings']}|{f['id'] for f in ours['fixed']}
+for k in ('findings','fixed'):
+    for f in theirs[k]:
+        if f['id'] not in ids:
+            ours[k].append(f)
+json.dump(ours,open('known_findings.json','w'),indent=1)
+PY
+    ;;
     *) echo "UNRESOLVED $f";;
   esac
 done
